@@ -78,7 +78,10 @@ type flattener struct {
 	// ownAfterNested models the defect F-C03-nested-order (a rule's own declarations are emitted
 	// after its nested rules); only used by the generator to keep triggers out of the workload.
 	ownAfterNested bool
-	forms          bool // the forms UA sheet applies
+	// trailInPlace selects the 2024 reading of declarations written after nested rules (they keep
+	// their place in the order of appearance); default is the 2023 reading (hoisted).
+	trailInPlace bool
+	forms        bool // the forms UA sheet applies
 	// emptyKeepsImports models the defect F-C03-import-after-empty-rule (a style rule or @media
 	// with an empty block does not end the @import section); generator use only.
 	emptyKeepsImports bool
@@ -102,6 +105,9 @@ func (f *flattener) killItems(items []Item, why string) {
 		switch it.Kind {
 		case "rule":
 			for _, d := range it.Decls {
+				f.dead = append(f.dead, deadDecl{d, why})
+			}
+			for _, d := range it.Trail {
 				f.dead = append(f.dead, deadDecl{d, why})
 			}
 			f.killItems(it.Nested, why)
@@ -157,10 +163,10 @@ func (f *flattener) sheet(items []Item, origin, where string, hint, inMedia bool
 			if it.BadSel {
 				// an invalid selector invalidates the whole rule; it is not a *valid* rule, so
 				// it does not end the @import section either
-				f.killItems([]Item{{Kind: "rule", Decls: it.Decls, Nested: it.Nested}}, "rule with an invalid selector ("+w+")")
+				f.killItems([]Item{{Kind: "rule", Decls: it.Decls, Trail: it.Trail, Nested: it.Nested}}, "rule with an invalid selector ("+w+")")
 				continue
 			}
-			if !(f.emptyKeepsImports && len(it.Decls) == 0 && len(it.Nested) == 0) {
+			if !(f.emptyKeepsImports && len(it.Decls) == 0 && len(it.Nested) == 0 && len(it.Trail) == 0) {
 				importsAllowed = false
 			}
 			f.rule(it, nil, origin, w, hint)
@@ -178,8 +184,12 @@ func (f *flattener) rule(it Item, ctx *nestCtx, origin, where string, hint bool)
 	if ctx != nil {
 		sel = nestedSelectors(sel)
 	}
+	decls := it.Decls
+	if !f.trailInPlace && len(it.Trail) > 0 {
+		decls = append(append([]Decl{}, it.Decls...), it.Trail...)
+	}
 	own := func() {
-		f.rules = append(f.rules, flatRule{origin: origin, hint: hint, pe: it.PE, sel: sel, ctx: ctx, decls: it.Decls,
+		f.rules = append(f.rules, flatRule{origin: origin, hint: hint, pe: it.PE, sel: sel, ctx: ctx, decls: decls,
 			where: where + " {" + selListText(it.Sel) + "}", order: len(f.rules)})
 	}
 	if !f.ownAfterNested {
@@ -191,7 +201,7 @@ func (f *flattener) rule(it Item, ctx *nestCtx, origin, where string, hint bool)
 			w := fmt.Sprintf("%s {%s} nested %d", where, selListText(it.Sel), k)
 			if n.BadSel {
 				// Syntax 3 "consume a block's contents": an invalid nested rule is dropped alone
-				f.killItems([]Item{{Kind: "rule", Decls: n.Decls, Nested: n.Nested}}, "nested rule with an invalid selector ("+w+")")
+				f.killItems([]Item{{Kind: "rule", Decls: n.Decls, Trail: n.Trail, Nested: n.Nested}}, "nested rule with an invalid selector ("+w+")")
 				continue
 			}
 			f.rule(n, inner, origin, w, hint)
@@ -199,6 +209,10 @@ func (f *flattener) rule(it Item, ctx *nestCtx, origin, where string, hint bool)
 	}
 	if f.ownAfterNested {
 		own()
+	}
+	if f.trailInPlace && len(it.Trail) > 0 {
+		f.rules = append(f.rules, flatRule{origin: origin, hint: hint, pe: it.PE, sel: sel, ctx: ctx, decls: it.Trail,
+			where: where + " {" + selListText(it.Sel) + "} trailing declarations", order: len(f.rules)})
 	}
 }
 
